@@ -589,3 +589,19 @@ def rule_T_BUDGET_IDENT(ctx, T, models=("enum", "lex")):
             ctx.ob("T-BUDGET-IDENT", "%s %s budget brackets %r…%r are not spellable in an atom name" % (model, name, br[0], br[1]), not bad,
                    "a top-level word beginning %r (or %r<digits>%r) is consumed as a budget: the sentence becomes a task with a shorter term, "
                    "or the parse fails with a missing term" % (w, br[0], br[1]))
+
+
+def rule_T_IDENT_CLASS(ctx, T, models=("enum", "lex")):
+    ctx.rule("T-IDENT-CLASS", "the identifier predicate of every table accepts at least char::is_alphanumeric (every Unicode letter and number: "
+             "the formatters print names verbatim and the README grammar's atom_char = LETTER | NUMBER | \"_\" | \"-\") plus '_' and '-'; a "
+             "narrower class (e.g. is_alphabetic || is_ascii_digit) cuts names with non-ASCII digits")
+    for name in T.names:
+        for model in models:
+            try:
+                fn = T.e_roles(name)["fn"]["is_valid_atom_name"] if model == "enum" else T.l_roles(name)["fn"]["is_identifier"]
+                p = char_pred(ctx.facts, fn)
+            except (Unrecognised, KeyError) as u:
+                ctx.unrecognised("T-IDENT-CLASS", "%s %s" % (model, name), getattr(u, "what", str(u)))
+                continue
+            ok = ("call", "std::char::methods::<impl char>::is_alphanumeric") in p and ("lit", "_") in p and ("lit", "-") in p
+            ctx.ob("T-IDENT-CLASS", "%s %s identifier predicate ⊇ is_alphanumeric ∪ {_,-}" % (model, name), ok, "%s" % sorted(p))
